@@ -241,6 +241,10 @@ type rtpDecoderKLV rtpklv.Decoder
 func (d *rtpDecoderKLV) decode(pkt *rtp.Packet) (unit.Payload, error) {
 	payload, err := (*rtpklv.Decoder)(d).Decode(pkt)
 	if err != nil {
+		if errors.Is(err, rtpklv.ErrNonStartingPacketAndNoPrevious) ||
+			errors.Is(err, rtpklv.ErrMorePacketsNeeded) {
+			return nil, nil
+		}
 		return nil, err
 	}
 
